@@ -263,6 +263,24 @@ type ByteArrs struct {
 	SL []Shape          `serix:",lenPrefix=uint8"`
 }
 
+// destinations for long inputs (no max length, uint16/uint32 prefixes)
+type (
+	LBytes16 []byte
+	LBytes32 []byte
+	LStr16   string
+	LStr32   string
+	LU16s16  []uint16
+	LU16s32  []uint16
+	LMap32   map[uint32]uint32
+	LCount32 []CountElem
+)
+
+type LongS struct {
+	A []byte   `serix:",lenPrefix=uint32"`
+	B string   `serix:",lenPrefix=uint16"`
+	C []uint16 `serix:",lenPrefix=uint32"`
+}
+
 type Outer struct {
 	P  Prims       `serix:""`
 	S  Slices      `serix:""`
@@ -324,6 +342,14 @@ func newUniverse() *universe {
 	must(api.RegisterTypeSettings(U32Arr{}, ts.WithLengthPrefixType(lp8)))
 	must(api.RegisterTypeSettings(MapU8{}, ts.WithLengthPrefixType(lp16).WithMaxLen(6)))
 
+	must(api.RegisterTypeSettings(LBytes16{}, ts.WithLengthPrefixType(lp16)))
+	must(api.RegisterTypeSettings(LBytes32{}, ts.WithLengthPrefixType(lp32)))
+	must(api.RegisterTypeSettings(LStr16(""), ts.WithLengthPrefixType(lp16)))
+	must(api.RegisterTypeSettings(LStr32(""), ts.WithLengthPrefixType(lp32)))
+	must(api.RegisterTypeSettings(LU16s16{}, ts.WithLengthPrefixType(lp16)))
+	must(api.RegisterTypeSettings(LU16s32{}, ts.WithLengthPrefixType(lp32)))
+	must(api.RegisterTypeSettings(LMap32{}, ts.WithLengthPrefixType(lp32)))
+	must(api.RegisterTypeSettings(LCount32{}, ts.WithLengthPrefixType(lp32)))
 	must(api.RegisterTypeSettings(Circle{}, ts.WithObjectType(uint8(0))))
 	must(api.RegisterTypeSettings(Square{}, ts.WithObjectType(uint8(1))))
 	must(api.RegisterTypeSettings(Group{}, ts.WithObjectType(uint8(2))))
@@ -381,6 +407,15 @@ func newUniverse() *universe {
 	add("Coded", Coded{}, true)
 	add("PtrArr", PtrArr{}, true)
 	add("ByteArrs", ByteArrs{}, true)
+	add("LongS", LongS{}, true)
+	add("LBytes16", LBytes16{}, false)
+	add("LBytes32", LBytes32{}, false)
+	add("LStr16", LStr16(""), false)
+	add("LStr32", LStr32(""), false)
+	add("LU16s16", LU16s16{}, false)
+	add("LU16s32", LU16s32{}, false)
+	add("LMap32", LMap32{}, false)
+	add("LCount32", LCount32{}, false)
 	add("Outer", Outer{}, true)
 	add("Point", Point{}, true)
 	add("Group", Group{}, true)
